@@ -43,14 +43,20 @@ def c02 (args : List String) : String :=
         else
           -- conditioning: an input perturbation of the size of one rounding error must not move the result visibly
           -- (f32: ~100 accumulated roundings; f64: the built-in tensor targets store their parameters as f32)
-          let e : Float := if ty = "f32" then 1e-5 else if tspec.head? == some "student" || tspec.head? == some "gauss2" then 2e-6 else 2e-7
+          let e : Float := if ty = "f32" then 1e-5 else 2e-7
           let x2 := x.map fun t => t * (1 + e)
           let p2 := p.map fun t => t * (1 - e)
           let res2 := hmcStepRow t.logp t.grad keF eps 0.5 L x2 p2 lnu
           let r2 := leapfrogCode t.grad eps 0.5 L (x2, p2, (eps * 0.5) • t.grad x2)
           let dh2 := hamiltonian t.logp keF x2 p2 - hamiltonian t.logp keF r2.1 r2.2.1
           -- the decision itself must be stable under that perturbation
+          let ec : Float := if ty = "f32" || tspec.head? == some "student" || tspec.head? == some "gauss2" then 1e-5 else 2e-7
+          let x2c := x.map fun t => t * (1 + ec)
+          let p2c := p.map fun t => t * (1 - ec)
+          let r2c := leapfrogCode t.grad eps 0.5 L (x2c, p2c, (eps * 0.5) • t.grad x2c)
+          let dh2c := hamiltonian t.logp keF x2c p2c - hamiltonian t.logp keF r2c.1 r2c.2.1
           let decisionStable := !(dh2.isNaN) && (dh - dh2).abs < 0.2 * (dh - lnu).abs
+            && !(dh2c.isNaN) && (dh - dh2c).abs < 0.5 * (dh - lnu).abs
           -- a second, sign-alternating perturbation (excites other directions)
           let x3 := x.zipIdx.map fun (t, i) => t * (1 + (if i % 2 == 0 then e else -e)) + (if i % 3 == 0 then e else 0)
           let p3 := p.zipIdx.map fun (t, i) => t * (1 + (if i % 2 == 1 then 2 * e else -e))
